@@ -3,6 +3,9 @@
 HOOK_COMMITS = ['afbbdb338']
 
 ENGINES = [
+    dict(name='E4-TSE', path='engine/vsrt/vsrt.cpp, engine/tse.hpp', serves_properties=['C18', 'C19'],
+         kind_free_text='stateless preemption-bounded exploration of thread schedules of the real implementation: libvsrt serialises real std::threads (futex hand-off), interposes pthread/once/guards/'
+                        'sleep/clock, implements the __tsan_* ABI with a vector-clock happens-before monitor; tse.hpp runs every schedule in a forked child and iterates the site sets to a fixpoint'),
     dict(name='E1-DBE', path='engine/choice.hpp', serves_properties=['C01', 'C02', 'C03', 'C04', 'C08', 'C15', 'C16', 'C17', 'C20'],
          kind_free_text='choice oracle owning every primitive random draw (hook H1), every state/control sample and the termination index; deviation-bounded explorer: all executions '
                         'with <= D departures from a fixed default answer stream among the first N choice points, plus full products over the first d points'),
@@ -15,7 +18,8 @@ ENGINES = [
 ]
 
 HARNESSES = {
-    'C19': [dict(name='c19_threads', src=['C19_threads.cpp'], flavour='tsi')],
+    'C19': [dict(name='c19_threads', src=['C19_threads.cpp'], flavour='tsi', ldflags=['-rdynamic']),
+            dict(name='c19_tsan', src=['C19_threads.cpp'], flavour='tsan', cflags=['-DC19_FREERUN'], nojobs=True)],
     'C16': [dict(name='c16_constrained', src=['C16_constrained.cpp'], flavour='asan')],
     'C15': [dict(name='c15_informed', src=['C15_informed.cpp'], flavour='asan')],
     'C14': [dict(name='c14_dubins', src=['C14_dubins.cpp'], flavour='asan', cflags=['-O2'])],
@@ -50,6 +54,15 @@ DBE_NOTE = ('Trusted: the choice oracle (hook H1 + sampler-allocator seam) reall
             'g++/ASan build of libompl. Bounded: deviation bound D over the first N choice points, lattice samples, the listed worlds/configurations; silent beyond.')
 
 PROPERTY_META = {
+    'C19': dict(
+        deadline_quick=420, deadline_thorough=1700, engine='E4-TSE', design_ref='4/E4, 5/C19',
+        technique='stateless exploration of ALL schedules with <= P preemptions of real threads of the tsan-instrumented library under a serialising scheduler (own __tsan runtime), with an in-schedule vector-clock happens-before race monitor; races confirmed by a free-running ThreadSanitizer pass',
+        level_text='Documented thread-safe surface (shared SpaceInformation checkMotion/isValid with counters, shared GNAT queries, RNG and StateSpace construction, addSolutionPath vs. readers, logging vs. '
+                   'handler switching, terminate() vs. eval(), the periodic termination thread) and the multi-threaded planners pRRT, pSBL, CForest, PRM, AnytimePathShortening with the C01 oracle: every '
+                   'schedule with <= 1 (thorough 2-3) preemptions, scheduling points at every synchronisation operation, shared atomic and racy access, to the fixpoint of the site sets; each schedule '
+                   'in a fresh process; deadlock/livelock detection under virtual time.',
+        level_note='Trusted: libvsrt (scheduler, interposers, vector-clock monitor), gcc -fsanitize=thread instrumentation. Sequential consistency only; accesses inside uninstrumented libraries are '
+                   'invisible; 2 worker threads; a race on the documented surface counts only when confirmed by an exhibited consequence or by the free-running libtsan pass.'),
     'C16': dict(
         deadline_quick=300, deadline_thorough=1500, engine='E2-HBFS', design_ref='5/C16',
         technique='exhaustive lattice pairs on the stateless projected space; explicit-state BFS over operation sequences of the stateful atlas / tangent-bundle spaces with the chart list as canonical state; sampler calls under the choice oracle',
